@@ -393,6 +393,8 @@ func runC09(c *Ctx, tier string) {
 	}
 	_ = token.NoPos
 	runDictNulls(c, "C09-N1")
+	runVamEncodingCoverage(c, "C09-X2")
+	runVectorizeDeclinesFilter(c, "C09-G3")
 }
 
 func init() {
